@@ -169,9 +169,26 @@ Enc(T, v, p) ==
          ELSE OfB(Cat(<<LenBytes(Len(v.ps), p)>> \o
                       [i \in 1 .. Len(v.ps) |-> Cat(<<Framed(Enc(T.kt, v.ps[i].key, p), p), Framed(Enc(T.vt, v.ps[i].val, p), p)>>)]))
     [] t \in {"tuple", "udt"} ->
-         IF v.k # "tuple" \/ Len(v.es) # Len(T.es) THEN RErr
+         \* "A UDT value will generally have one value for each field of the type it represents, but it is allowed to
+         \* have less values than the type has fields" (native protocol, UDT): absent trailing fields are null
+         IF v.k # "tuple" \/ Len(v.es) > Len(T.es) \/ (t = "tuple" /\ Len(v.es) # Len(T.es)) THEN RErr
          ELSE OfB(Cat([i \in 1 .. Len(v.es) |-> FramedInt(Enc(T.es[i], v.es[i], p))]))
     [] OTHER -> RErr
+
+\* the same column value with the trailing null fields of every UDT value left out (what a server sends for rows
+\* written before ALTER TYPE ... ADD); EncShort is a second specification-conformant encoding of v
+RECURSIVE TrimUdt(_, _)
+TrimUdt(T, v) ==
+  LET t == T.t IN
+  IF v.k = "list" /\ t \in {"list", "set"} THEN VList([i \in 1 .. Len(v.es) |-> TrimUdt(T.e, v.es[i])])
+  ELSE IF v.k = "map" /\ t = "map" THEN VMap([i \in 1 .. Len(v.ps) |-> KV(TrimUdt(T.kt, v.ps[i].key), TrimUdt(T.vt, v.ps[i].val))])
+  ELSE IF v.k = "tuple" /\ t \in {"tuple", "udt"} /\ Len(v.es) = Len(T.es) THEN
+       LET es == [i \in 1 .. Len(v.es) |-> TrimUdt(T.es[i], v.es[i])]
+           keep == IF t = "tuple" \/ \A i \in 1 .. Len(es) : es[i].k = "null" THEN (IF t = "tuple" THEN Len(es) ELSE 0)
+                   ELSE CHOOSE n \in 1 .. Len(es) : es[n].k # "null" /\ \A i \in n + 1 .. Len(es) : es[i].k = "null"
+       IN VTuple(SubSeq(es, 1, keep))
+  ELSE v
+EncShort(T, v, p) == Enc(T, TrimUdt(T, v), p)
 
 \* ------------------------------------------------------------ Dec (reference decoder)
 DecDuration(b) ==
@@ -496,6 +513,11 @@ ASSUME Enc(TMap(NT("text"), NT("tinyint")), VMap(<<KV(VBytes(<<97>>), VI(-1))>>)
 ASSUME Enc(TTuple(<<NT("int"), NT("text")>>), VTuple(<<VNull, VBytes(<<>>)>>), 4) = ROk(<<255, 255, 255, 255, 0, 0, 0, 0>>)
 ASSUME Dec(TTuple(<<NT("int"), NT("text")>>), ROk(<<255, 255, 255, 255, 0, 0, 0, 0>>), 4) = VTuple(<<VNull, VBytes(<<>>)>>)
 ASSUME Dec(TTuple(<<NT("int"), NT("text")>>), ROk(<<0, 0, 0, 4, 0, 0, 0, 7>>), 4) = VTuple(<<VI(7), VNull>>)
+ASSUME LET T == TUdt(<<NT("int"), NT("text"), NT("int")>>) v == VTuple(<<VI(7), VNull, VNull>>) IN
+         /\ EncShort(T, v, 4) = ROk(<<0, 0, 0, 4, 0, 0, 0, 7>>) /\ Dec(T, EncShort(T, v, 4), 4) = v
+         /\ Enc(T, v, 4) = ROk(<<0, 0, 0, 4, 0, 0, 0, 7, 255, 255, 255, 255, 255, 255, 255, 255>>)
+         /\ EncShort(T, VTuple(<<VNull, VNull, VI(1)>>), 4) = Enc(T, VTuple(<<VNull, VNull, VI(1)>>), 4)
+         /\ EncShort(TList(T), VList(<<v>>), 4) = ROk(<<0, 0, 0, 1, 0, 0, 0, 8, 0, 0, 0, 4, 0, 0, 0, 7>>)
 ASSUME \A p \in {2, 4} : LET T == TList(TMap(NT("text"), NT("varint")))
                              v == VList(<<VMap(<<KV(VBytes(<<97>>), VI(-129)), KV(VBytes(<<>>), VInt(Pow2(64)))>>), VMap(<<>>)>>)
                          IN Dec(T, Enc(T, v, p), p) = v
